@@ -87,6 +87,17 @@ GetByID(i) == /\ ~req.active
                                           d1 |-> (IF ok THEN store[i].data["k1"] ELSE ""), d2 |-> (IF ok THEN store[i].data["k2"] ELSE ""), n |-> 0])
                  /\ store' = IF Live(i) /\ ~ok THEN [store EXCEPT ![i] = Absent] ELSE store
               /\ UNCHANGED <<clock, next, req>>
+\* store API, between requests (a background task): the session is obtained by its id, a value is written, it is saved and released.
+\* Saving it is a use of the session like any other: the idle timeout runs from now, the absolute deadline stays
+ByIDSave(i, k, v) ==
+  /\ ~req.active
+  /\ LET ok == Live(i) /\ ~(Abs > 0 /\ store[i].abs # 0 /\ clock > store[i].abs)
+         nd == IF ok THEN [store[i].data EXCEPT ![k] = v] ELSE NoData
+     IN /\ hist' = Append(hist, [op |-> "byidsave", a |-> i, k |-> k, v |-> v, id |-> (IF ok THEN i ELSE 0), fresh |-> FALSE,
+                                 d1 |-> nd["k1"], d2 |-> nd["k2"], n |-> 0])
+        /\ store' = IF ok THEN [store EXCEPT ![i] = [data |-> nd, dl |-> clock + Idle, abs |-> store[i].abs]]
+                    ELSE IF Live(i) THEN [store EXCEPT ![i] = Absent] ELSE store
+  /\ UNCHANGED <<clock, next, req>>
 StoreDelete(i) == /\ ~req.active /\ store' = [store EXCEPT ![i] = Absent]
                   /\ hist' = Append(hist, [op |-> "storedelete", a |-> i, k |-> "", v |-> "", id |-> 0, fresh |-> FALSE, d1 |-> "", d2 |-> "", n |-> 0])
                   /\ UNCHANGED <<clock, next, req>>
@@ -102,6 +113,7 @@ Next == /\ UNCHANGED mode
            \/ (On("destroy") /\ Destroy) \/ (On("regenerate") /\ Regenerate) \/ (On("reset") /\ Reset)
            \/ (On("save") /\ Save) \/ End \/ (On("reget") /\ ReGet)
            \/ \E i \in 1..(next - 1) : (On("getbyid") /\ GetByID(i)) \/ (On("storedelete") /\ StoreDelete(i))
+           \/ \E i \in 1..(next - 1), k \in Keys, v \in Vals : On("byidsave") /\ ByIDSave(i, k, v)
            \* even ticks, odd timeouts: no request lands exactly on a deadline.  Without "freeticks" time passes only in single
            \* steps of 2 between requests, so that a session a client keeps using never idles out and meets its absolute deadline
            \/ \E d \in {2, 4} : (On("freeticks") \/ (d = 2 /\ hist # <<>> /\ hist[Len(hist)].op = "end")) /\ Tick(d)
